@@ -441,6 +441,38 @@ pub fn run(ctx: &'static Ctx) -> (&'static str, Value, Vec<&'static str>) {
         }
     }
     stats = stats.merge(merged);
+    // history: sequences of grouping / merging calls on one fresh thread
+    let halpha: Vec<Vec<u8>> = vec![vec![1, 1, 2], vec![0], vec![], vec![5; 300], vec![2, 1, 2, 2], vec![255, 255], (0..600).map(|i| (i % 2) as u8 + 1).collect()];
+    let sh = history_check(
+        ctx,
+        "from_radials",
+        halpha.len(),
+        3,
+        |i| match guarded(|| Sweep::from_radials(radials_for(&halpha[i]))) {
+            Caught::Ret(v) => format!("{:?}", observe(&v).iter().map(|s| (s.0, s.1.len(), s.1.first().copied())).collect::<Vec<_>>()),
+            Caught::Panic(p) => format!("panic:{}", panic_class(&p)),
+        },
+        |i| format!("word#{i}(len {})", halpha[i].len()),
+    );
+    let mcases: Vec<MergeCase> = vec![
+        MergeCase { a: vec![3, 1, 2], b: vec![2, 2], ea: 1, eb: 1 },
+        MergeCase { a: (1..=40).rev().collect(), b: (1..=40).collect(), ea: 2, eb: 2 },
+        MergeCase { a: vec![1], b: vec![1], ea: 1, eb: 2 },
+        MergeCase { a: vec![], b: vec![7, 7, 7], ea: 0, eb: 0 },
+    ];
+    let sm = history_check(
+        ctx,
+        "merge",
+        mcases.len(),
+        3,
+        |i| {
+            let before = ctx.failure_count();
+            let o = check_merge(ctx, &mcases[i]);
+            format!("{o}:{}", ctx.failure_count() - before)
+        },
+        |i| format!("{:?}", mcases[i]),
+    );
+    stats = stats.merge(sh).merge(sm);
 
     let mut cov = stats.coverage(
         "stateright BFS+DFS over elevation words (every word over each alphabet up to the depth); invariant runs the real Sweep::from_radials in every state and compares with a reference grouping, plus split-differential from non-initial states; every word of length <= 6 and every long input is also checked under 7 radial-status patterns that vary independently of the elevation number; merge: full product of azimuth-word pairs x {same,different} elevation. non-trivial = word with >=2 runs, or merge with >=2 radials; distinct by hash of the word/pair",
@@ -473,6 +505,9 @@ pub fn replay(ctx: &'static Ctx, case: &Value) {
             let c = MergeCase { a: g("a"), b: g("b"), ea: case["ea"].as_u64().unwrap_or(0) as u8, eb: case["eb"].as_u64().unwrap_or(0) as u8 };
             let o = check_merge(ctx, &c);
             println!("replay merge {:?} outcome={}", c, o);
+        }
+        Some("history") => {
+            let _ = run(ctx);
         }
         _ => machinery("C09 replay: unknown op"),
     }
